@@ -10,6 +10,8 @@ tie   : stream valid-grid — valid and invalid grid geometries (templates of ev
         (Model/Valid/Ref.lean) on exactly scaled integers and compares verdict, error code (must be the first broken
         rule in IsValidOp's order) and location (must be a place where that rule is broken, to rounding).
         The harness also runs the property's invariance oracle directly on GEOS (3 random exact transformations per case).
+        stream node-topo — the real PolygonNodeTopology::compareAngle / isCrossing / isInteriorSegment on integer node
+        configurations against the Lean copy the theorems are about.
 A difference in a verdict IS a violation of C05 (GEOS != the rules).  Known defects are matched by structural signatures."""
 import os, json, glob
 import verif, gtok
@@ -182,6 +184,19 @@ def run(ctx):
         ctx.violation("validity/simplicity differs from the OGC rules: %s  [%s]" % (got, json.dumps(sig, sort_keys=True)),
                       {"kind": "failing-input", "stream": STREAM, "geom": geom, "wkt": safe_wkt(geom), "observed": obs.split(" | ")[-1] if obs else "",
                        "verdict": got, "signature": sig}, signature=sig)
+    # ---- the CORE model against the real PolygonNodeTopology functions (direct tie of the proved model to the code)
+    r2 = verif.run_stream(exe, "node-topo", ctx.seed, 200000 if quick else 4000000, ctx.work, shards=8, driver_exe=DRV)
+    corr["node-topo"] = {"cases": r2["cases"], "disagreements": len(r2["disagreements"]) + r2.get("more_disagreements", 0), "distribution": r2["stats"]}
+    if r2["error"]:
+        ctx.violation("stream node-topo could not run: " + r2["error"], {"kind": "tie-broken", "correspondence": "node-topo", "detail": r2["error"]}, nofail=True)
+    elif r2["disagreements"]:
+        idx, case, exp, got = r2["disagreements"][0]
+        # the Lean copy is proved to satisfy the wedge specification, so the C++ now violates isCrossing_iff / isInteriorSegment_iff
+        # on this node configuration; whether that changes a validity verdict is what the valid-grid stream decides
+        ctx.violation("PolygonNodeTopology differs from its Lean copy (which is proved equal to the wedge specification): case %s impl %s model %s" % (case, exp, got),
+                      {"kind": "tie-broken", "correspondence": "node-topo", "case": case, "impl": exp, "model": got,
+                       "fields": "compareAngle(o,a0,a1) compareAngle(o,b0,a0) isCrossing isInteriorSegment(b0) isInteriorSegment(b1); case = N o a0 a1 b0 b1"},
+                      nofail=not found_input)
     ctx.cov["support_correspondence"] = corr
     if not proved:
         lf = getattr(ctx, "lean_failure", None) or {}
